@@ -2,6 +2,9 @@
    the target name, evaluated on the implementation's observation. -/
 import Rl.Drv.Editor
 import Rl.Spec.EdOracle
+import Rl.Spec.OracleNav
+import Rl.Spec.OracleSearch
+import Rl.Spec.OracleComplete
 namespace Rl.Drv.Ed
 open Rl Rl.Wire Rl.Spec
 
@@ -15,6 +18,9 @@ def handle (tbl : CharTable) (target : String) (f : List String) (impl : String)
       let v : OVerdict :=
         if target == "ed17" then oracleC17 o
         else if target == "ed13" then firstFail [oracleC17 o, oracleC13 cfg.validator o]
+        else if target == "ed07" then firstFail [oracleC17 o, oracleC07 cfg.hist cfg.hasCompleter (!cfg.listCompletion) o]
+        else if target == "ed08" then firstFail [oracleC17 o, oracleC08 cfg.hist o]
+        else if target == "ed14" then firstFail [oracleC17 o, oracleC14 cfg.completer (!cfg.listCompletion) o]
         else none
       pure (model, verdictStr v)
 
